@@ -279,7 +279,7 @@ def run_python_ob(ob: Ob, exclude: List[str]) -> Verdict:
     for l in p.stdout.splitlines():
         if l.startswith('PYOB-RESULT '):
             r = json.loads(l[len('PYOB-RESULT '):])
-            return Verdict(r.get('status', 'inconclusive'), r.get('detail', ''), r.get('cex'), round(r.get('solver_s', time.time() - t0), 2),
+            return Verdict(r.get('status', 'inconclusive'), r.get('detail', ''), r.get('cex') or (r.get('extra') or {}).get('cex') or {}, round(r.get('solver_s', time.time() - t0), 2),
                            r.get('paths', 0), r.get('samples', []), r.get('distinct', 0), r.get('extra', {}))
     return Verdict('inconclusive', f'engine error rc={p.returncode}: {p.stdout[-500:]} {p.stderr[-1500:]}', solver_s=time.time() - t0)
 
@@ -466,8 +466,11 @@ def run_property(prop: str, tier: str, obligations: List[Ob], explanation: str, 
                 inconclusive.append((ob, 'reachability twin not refuted (vacuous harness?): ' + twin_rec['detail']))
 
     # ---- report
+    seen_f = {}
     for fid, ob, cex in known_hit:
-        print(f'KNOWN-FINDING: property={prop} {fid} [{ob.id}] {known_ids[fid]["what"]} :: {cex}')
+        seen_f.setdefault(fid, []).append((ob.id, cex))
+    for fid, hits in seen_f.items():
+        print(f'KNOWN-FINDING: property={prop} {fid} {known_ids[fid]["what"]} :: ' + '; '.join(f'[{o}] {c}' for o, c in hits)[:600])
     for ob, path, v in violations:
         print(f'  counterexample [{ob.id}] {v.detail[:400]}')
         print(f'VIOLATION property={prop} replay={path}')
